@@ -114,18 +114,45 @@ def run_auth(scripts):
         return e
 
 
-def real_tree(t):
-    """nested tuples / bytes -> tools.ScriptNode / ScriptLeaf (+ leaf list)"""
+def real_tree(t, rng=None):
+    """nested tuples / bytes -> tools.ScriptNode / ScriptLeaf (+ leaf list).
+    With rng, the tree is built bottom-up *with queries interleaved*: some
+    intermediate nodes are asked for their root / locking script / the
+    unlocking scripts of the leaves below them / their serialisation before
+    they are placed under their parent (a tree built step by step is still a
+    tree built with the tree classes)."""
     tools = env.mods()[2]
     leaves = []
+
+    def under(node, acc):
+        if isinstance(node, tools.ScriptLeaf):
+            acc.append(node)
+        else:
+            under(node.left, acc)
+            under(node.right, acc)
+        return acc
 
     def rec(x):
         if isinstance(x, bytes):
             lf = tools.ScriptLeaf.from_script(tools.Script('', x))
             leaves.append(lf)
             return lf
-        return tools.ScriptNode(rec(x[0]), rec(x[1]))
+        node = tools.ScriptNode(rec(x[0]), rec(x[1]))
+        if rng is not None and rng.random() < 0.5:
+            Q.interleaved += 1
+            node.root()
+            node.locking_script()
+            node.unlocking_script()
+            for lf in under(node, []):
+                lf.unlocking_script()
+            if rng.random() < 0.3:
+                node.pack()
+        return node
     return rec(t), leaves
+
+
+class Q:
+    interleaved = 0
 
 
 def witness_items(b: bytes):
@@ -269,7 +296,7 @@ def judge_tree(ctx, rng, shape, tag):
     leaves = [leaf_script(rng, uid + bytes([k])) for k in range(n)]
     model = merkle.fill(shape, leaves)
     root = merkle.root(model)
-    node, real_leaves = real_tree(model)
+    node, real_leaves = real_tree(model, rng if rng.random() < 0.6 else None)
     try:
         lock = bytes(node.locking_script())
         if node.root() != root:
@@ -362,6 +389,43 @@ def judge_builder(ctx, rng, nleaves, which):
             elif k % 3 == 0:
                 judge_corruptions(ctx, rng, f'{tag}#{k}', lock, root, its,
                                   leaf_script(rng, b'\xee' * 5, pad_ok=False))
+    # history: a prioritized tree that was already queried is extended with
+    # more leaves through the builder's `tree` argument
+    if which == 'prioritized' and nleaves >= 2 and nleaves % 2 == 0:
+        ctx.evaluated()
+        try:
+            k = rng.randrange(1, nleaves)
+            first = [tools.Script.from_bytes(x) for x in leaves[k:]]
+            sub = tools.make_script_tree_prioritized(list(first))
+            sub.locking_script()
+            sub.unlocking_script()
+            sub.left.unlocking_script()
+            sub.right.unlocking_script()
+            more = [tools.Script.from_bytes(x) for x in leaves[:k]]
+            big = tools.make_script_tree_prioritized(list(more), sub)
+            Q.interleaved += 1
+            found = []
+
+            def walk(x):
+                if isinstance(x, tools.ScriptLeaf):
+                    found.append(x)
+                else:
+                    walk(x.left)
+                    walk(x.right)
+            walk(big)
+            lock2 = bytes(big.locking_script())
+            for lf in found:
+                body = bytes(lf.script)
+                if body not in leaves:
+                    continue
+                judge_proof(ctx, f'{tag}:extended', lock2,
+                            bytes(lf.unlocking_script()), body, None,
+                            lock2[1:], True, {'leaves': leaves,
+                                              'which': 'extended'})
+        except BaseException as e:
+            ctx.violation('builder-raised', f'{tag} extension: {e!r}'[:140],
+                          {'kind': 'builder', 'which': 'extended',
+                           'leaves': leaves})
     # filler positions (extra unlocking scripts) must not authorise
     for k in range(nleaves, len(unlocks)):
         ctx.evaluated()
@@ -398,6 +462,7 @@ def run_shard(spec, ctx):
                         judge_builder(ctx, ctx.rng(('b', n, which, r)), n,
                                       which)
         ctx.count('monitor.dispatches', Tr.total)
+        ctx.count('trees_built_with_interleaved_queries', Q.interleaved)
     finally:
         remove_tracer(saved)
 
